@@ -229,7 +229,26 @@ def run(prog, rep, tier='quick'):
                 rep.violation('dtype', g.qname, ctx, 'the returned solution has a real dtype although the system is complex', loc(g.mod, g.node))
             else:
                 rep.proved('dtype', g.qname, ctx, 'every buffer written with complex values is complex; solution dtype complex', loc(g.mod, g.node))
-    rep.floor('dtype contexts', n_dt, 6)
+    # LEVINSON on a complex autocorrelation: A, the reflection coefficients and every work buffer must be complex
+    g = prog.func('levinson', 'LEVINSON')
+    v, itp = C.run_function(prog, 'levinson', 'LEVINSON', [C.deg0((L.a + 1,), True, 'r')], {})
+    if not blocked(rep, 'dtype', g.qname, 'complex autocorrelation', itp):
+        n_dt += 1
+        bad = [c for c in itp.conflicts if c.comp == 'dtype' and c.func == g.qname]
+        outs = v.items if isinstance(v, Tup) else []
+        real_out = [nm for nm, o in zip(('a', 'P', 'k'), outs) if nm != 'P' and isinstance(o, Num) and o.cplx is False]
+        if bad:
+            for c in bad[:3]:
+                key = ('dtype', c.func, c.construct)
+                if key not in seen:
+                    seen.add(key)
+                    rep.violation('dtype', g.qname, c.construct, '%s (complex autocorrelation): the stored coefficient loses its '
+                                  'imaginary part' % c.msg, 'src/spectrum/%s.py:%s' % (c.mod, c.line))
+        elif real_out:
+            rep.violation('dtype', g.qname, 'complex autocorrelation', 'returned %s has a real dtype for complex input' % real_out, loc(g.mod, g.node))
+        else:
+            rep.proved('dtype', g.qname, 'complex autocorrelation', 'A and the reflection coefficients are complex buffers', loc(g.mod, g.node))
+    rep.floor('dtype contexts', n_dt, 7)
     # ---------------- guards and recurrences
     ng = guard_rule(rep, prog, 'levinson', 'LEVINSON', 'P', allow='allow_singularity')
     ng += guard_rule(rep, prog, 'toeplitz', 'HERMTOEP', 'P')
